@@ -115,6 +115,14 @@ def extract_many(cfgs, jobs=None):
 def harness_for(fn, contract):
     lines = ['int main(void) {', '  avel_static_init();']
     args = []
+    h = getattr(contract, 'harness', None)
+    if h:
+        for l in h['pre']:
+            lines.append('  ' + l)
+        lines.append('  %s(%s);' % (fn['cname'], ', '.join(h['args'])))
+        lines.append('  return 0;')
+        lines.append('}')
+        return '\n'.join(lines) + '\n'
     if fn['kind'] in ('method', 'conv') and not fn.get('static'):
         lines.append('  %s self_obj;' % fn['owner'])
         for s in contract.setup:
@@ -324,7 +332,7 @@ def extract_inputs(trace):
         lhs = st.get('lhs', '')
         if st.get('sourceLocation', {}).get('function') not in ('main', None) and not lhs.startswith('__CPROVER_rounding_mode'):
             continue
-        m = re.match(r'^(a\d+(_obj)?|self_obj|__CPROVER_rounding_mode|buf\w*|n_in)(\W.*)?$', lhs)
+        m = re.match(r'^(a\d+(_obj)?|self_obj|__CPROVER_rounding_mode|init|idx_in|len_in|n_in)(\W.*)?$', lhs)
         if m:
             vals.setdefault(m.group(1), {})[lhs] = _val(st.get('value'))
     return vals
